@@ -431,14 +431,35 @@ fn gate_trylock<const V: u32>(d: &mut Drv<V>, workers: usize) {
         std::thread::sleep(Duration::from_millis(400));
         RELEASE_LOCKED.store(true, Ordering::SeqCst);
     });
-    std::thread::spawn(move || {
+    let requester = std::thread::spawn(move || {
         mmtk::verif::set_thread_tag(1000);
         ev(Obj::new("GCRequest").int("m", 0).bool("exhaustive", false));
         m.handle_user_collection_request(mutator_tls(0), true, false);
+        ev(Obj::new("GCReturn").int("m", 0));
     });
     let _ = h.join();
     std::thread::sleep(Duration::from_millis(800));
     ev(Obj::new("GateObserved").int("round", 0));
+    // C16 "with no work lost; subsequent GCs complete normally": the request made while the last
+    // worker was exiting is still pending; the respawned workers must serve it
+    let vm_tls = mmtk::util::opaque_pointer::VMThread(mmtk::util::opaque_pointer::OpaquePointer::from_address(unsafe {
+        Address::from_usize(8000)
+    }));
+    ARMED.store(false, Ordering::SeqCst);
+    m.after_fork(vm_tls);
+    let t0 = Instant::now();
+    while !requester.is_finished() {
+        std::thread::sleep(Duration::from_millis(2));
+        if t0.elapsed() > Duration::from_secs(20) {
+            ev(Obj::new("Crash")
+                .str("msg", "hang: the GC request made while the workers were exiting for fork was never served after after_fork")
+                .str("loc", "scheddrive")
+                .int("exitHang", 1));
+            TRACE.flush();
+            std::process::exit(3);
+        }
+    }
+    let _ = requester.join();
 }
 
 fn run<const V: u32>() {
